@@ -244,6 +244,21 @@ class Scheduler:
         self._switch_log(me, nxt, where)
         self._handoff(me, nxt)
 
+    def yield_now(self, where="yield"):
+        """An explicit, unconditional hand-over placed by a world at a point where real code would be slow (I/O, a long
+        release): another runnable task, if any, gets the baton; the caller stays runnable.  Deterministic (no policy
+        draw), so it behaves the same under every policy and in replays."""
+        me = self.current
+        if me is None or me.thread is not threading.current_thread() or me.tid == self.atomic_tid:
+            return
+        others = self._others(me)
+        if not others:
+            return
+        self.points += 1
+        nxt = others[-1]
+        self._switch_log(me, nxt, where)
+        self._handoff(me, nxt)
+
     def _switch_log(self, a, b, where):
         self.switches += 1
         if self.log is not None:
